@@ -4,6 +4,7 @@ import (
 	"encoding/json"
 	"fmt"
 	"os"
+	"strings"
 
 	"asherahverif/explore"
 )
@@ -34,6 +35,48 @@ func init() {
 			}
 			return nil
 		}}
+}
+
+func init() {
+	Checks["C01"] = &Check{Level: "model_checking", Run: CheckK("C01", []string{"dec", "dec-of-revoked-ik", "dec-of-expired-ik", "dec-cross-process", "C01.records-rechecked"}), QuickBudget: 300, ThoroughBudget: 1800, ReplayOps: kReplay("C01")}
+	Checks["C03"] = &Check{Level: "model_checking", Run: CheckK("C03", []string{"C03.enc-checked", "ik-created"}), QuickBudget: 300, ThoroughBudget: 1800, ReplayOps: kReplay("C03")}
+	Checks["C04"] = &Check{Level: "model_checking", Run: CheckK("C04", []string{"enc", "ik-created", "C04.parent-sk-expired", "C04.parent-sk-expired-more-than-R"}), QuickBudget: 300, ThoroughBudget: 1800, ReplayOps: kReplay("C04")}
+	Checks["C05"] = &Check{Level: "model_checking", Run: CheckK("C05", []string{"C05.ik-revoked", "C05.ik-revoked-more-than-R", "C05.parent-sk-revoked", "C05.parent-sk-revoked-more-than-2R"}), QuickBudget: 300, ThoroughBudget: 1800, ReplayOps: kReplay("C05")}
+	Checks["C09"] = &Check{Level: "model_checking", Run: CheckK("C09", []string{"restart", "C09.nocache-op", "C09.bounded-cache-states"}), QuickBudget: 300, ThoroughBudget: 1800, ReplayOps: kReplay("C09")}
+}
+
+// kReplay re-executes an operation-history counterexample of the K space.
+func kReplay(prop string) func(v *Viol) []string {
+	return func(v *Viol) []string {
+		cfg := kConfigByName(strings.TrimPrefix(v.Harness, "K/"))
+		if cfg == nil {
+			return []string{"unknown configuration " + v.Harness}
+		}
+		var hist []string
+		b, _ := json.Marshal(v.Ops)
+		json.Unmarshal(b, &hist)
+		s, _, _ := kRun(cfg, hist, true, true)
+		fmt.Println("history:", hist)
+		var out []string
+		for _, kv := range s.Viols {
+			if kv.Prop == prop || kv.Prop == "*" {
+				out = append(out, kv.Sig+": "+kv.Msg)
+			}
+		}
+		return out
+	}
+}
+
+// KDump prints the canonical state after a history (debugging aid).
+func KDump(cfgName string, hist []string) {
+	cfg := kConfigByName(cfgName)
+	s, en, _ := kRun(cfg, hist, true, true)
+	fmt.Println(s.Dump)
+	fmt.Println("enabled:", en)
+	for _, v := range s.Viols {
+		fmt.Println("VIOL", v.Prop, v.Sig, v.Msg)
+	}
+	fmt.Println("counters:", s.Counters)
 }
 
 // Replay re-executes a recorded violation without any search.
